@@ -107,7 +107,8 @@ def gen(rng, tier):
                 if fn in ("cv_save", "bias_save", "cv_load", "bias_load", "cv_configfile"):
                     args.append(os.path.join(scratch, "f%d" % rng.randint(0, 3)))
                 elif fn == "cv_config" and rng.rand() < 0.5:
-                    args.append("colvar { name w%d distanceZ { main { atomNumbers 1 } ref { dummyAtom (0.0, 0.0, 0.0) } } }" % j)
+                    # (one keyword per line: "name" takes the rest of its line as its value)
+                    args.append("colvar {\n name w%d\n distanceZ {\n main { atomNumbers 1 }\n ref { dummyAtom (0.0, 0.0, 0.0) }\n }\n}" % j)
                 elif fn in ("colvar_get", "colvar_set", "bias_get", "bias_set") and a == 0 and rng.rand() < 0.6:
                     args.append(rng.choice(["apply_force", "active", "collect_gradient", "nosuchfeature", "output_energy"]))
                 else:
@@ -129,7 +130,7 @@ def gen(rng, tier):
                     biases = [b for b in biases if not (b == "h" or (b == "hs" and full[2] == "z"))]
             if len(full) == 4 and full[1] == "bias" and full[3] == "delete" and full[2] in biases:
                 biases = [b for b in biases if b != full[2]]
-            if len(full) == 3 and full[1] == "config" and full[2].startswith("colvar { name w"):
+            if len(full) == 3 and full[1] == "config" and full[2].startswith("colvar {\n name w"):
                 cvs = cvs + [full[2].split()[3]]
             lines.append("S.names cvs=%s biases=%s" % (",".join(cvs), ",".join(biases)))
             lines.append("m.counts")
